@@ -166,7 +166,7 @@ func CheckC14(tier string, seed uint64, rep *core.Reporter) (*core.Evidence, err
 		cases = append(cases, c)
 	}
 
-	cwdModes := []string{"dot", "rel", "relslash", "abs", "absslash", "symlink", "symlinkrel"}
+	cwdModes := []string{"dot", "rel", "relslash", "abs", "absslash", "symlink", "symlinkrel", "parentref", "fromsub"}
 	nSim := 2
 	if tier == "thorough" {
 		nSim = 16
